@@ -135,6 +135,38 @@ def run_history(steps, timeout=20.0):
     return out
 
 
+# --------------------------------------------------------------------------- node helpers
+def run_node_jobs(script, jobs, nproc=None, timeout=600, node_args=("--experimental-vm-modules", "--no-warnings")):
+    """Run NDJSON jobs through harness/js/<script> in parallel chunks; returns results by job id."""
+    if not jobs:
+        return {}
+    nproc = nproc or min(NCPU, max(1, len(jobs) // 200 + 1))
+    parts = [jobs[i::nproc] for i in range(nproc)]
+    out = {}
+    lock = threading.Lock()
+
+    def go(part):
+        if not part:
+            return
+        p = subprocess.run([NODE, *node_args, os.path.join(HARNESS, "js", script)],
+                           input="\n".join(json.dumps(j) for j in part) + "\n",
+                           capture_output=True, text=True, timeout=timeout)
+        for line in p.stdout.splitlines():
+            if line.strip():
+                try:
+                    r = json.loads(line)
+                except ValueError:
+                    continue
+                with lock:
+                    out[r.get("id")] = r
+    ths = [threading.Thread(target=go, args=(pt,)) for pt in parts]
+    for t in ths:
+        t.start()
+    for t in ths:
+        t.join()
+    return out
+
+
 # --------------------------------------------------------------------------- content helpers
 TRAILER = "//# sourceMappingURL=data:application/json;base64,"
 
@@ -216,8 +248,11 @@ def cfg_for_spec(eff):
 
 def static_record(rid, req, resp, with_pos=False):
     """trace record for TraceStatic.tla from one driver response (needs in_ast, out_ast, effective_config)"""
-    rec = {"rid": rid, "outcome": resp.get("outcome", "abort")}
+    rec = {"rid": rid, "outcome": resp.get("outcome", "abort"), "error": str(resp.get("error") or "")}
     if rec["outcome"] != "ok":
+        return rec
+    if "in_ast" not in resp:
+        rec["outcome"] = "ok_total"      # recorded for totality only (no trees requested)
         return rec
     eff = resp["effective_config"]
     cfg = cfg_for_spec(eff)
@@ -234,8 +269,12 @@ def static_record(rid, req, resp, with_pos=False):
         rec["out"] = norm.encode(norm.normalise(resp["out_ast"], rp, content if with_pos else None))
     else:
         rec["out"] = dict(NULLNODE)
-    if content and resp.get("out_ast") is None:
-        rec["outcome"] = "out_noparse"
+    # C08 observations: does the rewriter's own parser accept the output, and as which kind
+    rec["swc_out_ok"] = not (content and resp.get("out_ast") is None)
+    rec["kind_in"] = resp["in_ast"].get("type", "")
+    rec["kind_out"] = (resp.get("out_ast") or {}).get("type", "") if content else ""
+    rec["v8_in"] = "skip"
+    rec["v8_out"] = "skip"
     body, mp, ntr = split_trailer(content)
     dbg = metrics.get("propagationDebug")
     rec.update({
